@@ -27,7 +27,7 @@ from decimal import Decimal
 from fractions import Fraction
 
 PROPERTY = "C19"
-LEAN_MODULES = ["Proofs.C19", "Proofs.C19.Failure"]
+LEAN_MODULES = ["Proofs.C19", "Proofs.C19.Failure", "Proofs.C19.Process"]
 DRIVERS = ["driver_metrics"]
 RULE = ("1-4 scripted strategies out of 29 behaviours — trading: idle, add liquidity once/twice, add then remove, buy, sell, rebalance, add on a second "
         "Uniswap market, failing operation, Aave supply, Aave supply+borrow, option buy / buy+sell / two buys of the same instrument in the same hourly "
@@ -67,7 +67,7 @@ except Exception:  # noqa: BLE001
 MARKET_SETS = [["uni_a"], ["uni_a", "uni_b"], ["uni_a", "aave"], ["deribit"], ["uni_a", "deribit"], ["uni_sq", "squeeth"], ["gmx"]]
 CALL, PUT = "ETH-22SEP23-1650-C", "ETH-22SEP23-1600-P"
 T0 = "2023-08-15 00:00:00"
-GENERIC = ["idle", "watcher", "mut_prices", "mut_data", "mut_nested", "mut_status", "mut_assets", "trig_init", "trig_ctor", "mut_market", "raiser"]
+GENERIC = ["idle", "watcher", "mut_prices", "mut_data", "mut_nested", "mut_status", "mut_assets", "trig_init", "trig_ctor", "mut_market", "raiser", "proc_reader"]
 UNI = ["add1", "add2", "addremove", "buy", "sell", "rebalance", "failing", "indicator", "follower", "vandal", "bad_price"]
 OPT = ["opt_buy", "opt_round", "opt_twice"]
 BEHAVIOURS = GENERIC + UNI + ["add_b", "aave_s", "aave_sb"] + OPT + ["sq_buy", "sq_short", "glp_buy", "glp_round"]
@@ -292,7 +292,61 @@ def dump_state(strategy):
     out["actions"] = [[type(a).__name__, str(getattr(a, "market", "")), str(getattr(a, "timestamp", ""))] for a in strategy.actions]
     out["notes"] = list(strategy.notes)
     out["found"] = strategy.found
+    out["pid"] = os.getpid()        # which process ran this backtest (not compared: the observed assignment of tasks to workers)
     return out
+
+
+def status_hash(ms):
+    """content of a MarketDict of status rows / frames: keys in order, default key, every value cell by cell"""
+    h = hashlib.sha1()
+    h.update(repr([getattr(k, "name", str(k)) for k in ms.data.keys()]).encode())
+    h.update(repr(getattr(ms.get_default_key(), "name", None)).encode())
+    for v in ms.data.values():
+        h.update((frame_hash(v) if hasattr(v, "columns") else frame_hash(v.to_frame()) if hasattr(v, "to_frame") else repr(v)).encode())
+    return h.hexdigest()
+
+
+def proc_state(with_id=True):
+    """the process-wide state a backtest can read and leave behind (`G` of Demeter.Manager.GStrat): the decimal context of the thread
+    every backtest of this process runs on (precision, rounding, traps, exponent range, capitals, clamp) and the class-level
+    attributes of `Snapshot` that hold objects (a class-level `market_status` dict is shared by every Snapshot of the process):
+    identity, keys and content hash"""
+    import decimal
+    c = decimal.getcontext()
+    out = {"dctx": [c.prec, c.rounding, sorted(t.__name__ for t, on in c.traps.items() if on), c.Emin, c.Emax, c.capitals, c.clamp]}
+    try:
+        from demeter.broker._typing import Snapshot
+        shared = []
+        for k, v in sorted(vars(Snapshot).items()):
+            if k.startswith("__") or callable(v) or isinstance(v, (property, staticmethod, classmethod)):
+                continue
+            keys = sorted(getattr(x, "name", str(x)) for x in v.data.keys()) if hasattr(v, "data") and isinstance(v.data, dict) else None
+            shared.append([k] + ([id(v)] if with_id else []) + [keys, status_hash(v) if keys is not None else repr(v)[:200]])
+        out["snapshot_class"] = shared
+    except Exception as e:  # noqa: BLE001
+        out["snapshot_class"] = "unreadable: " + type(e).__name__
+    return out
+
+
+def install_proc_log(out_dir):
+    """no hook in /repo: the module-level `_start` of demeter.core.backtest (looked up by name on every call, in the caller's process and —
+    inherited by fork — in every pool worker) is wrapped here; every backtest appends {sid, pid, process state before / after, failed}
+    to a file of its own process, so the file order is the execution order inside that process"""
+    import demeter.core.backtest as bt
+    inner = bt._start
+
+    def logged(config, data, strategy, bk_config):
+        rec = {"sid": getattr(strategy, "sid", None), "pid": os.getpid(), "before": proc_state()}
+        try:
+            return inner(config, data, strategy, bk_config)
+        except BaseException as e:
+            rec["failed"] = type(e).__name__
+            raise
+        finally:
+            rec["after"] = proc_state()
+            with open(os.path.join(out_dir, f"_proc_{os.getpid()}.jsonl"), "a") as f:
+                f.write(json.dumps(rec) + "\n")
+    bt._start = logged
 
 
 def nested_columns(df):
@@ -355,9 +409,10 @@ def probe_found(strategy):
     f["prices"] += len([c for c in p.columns if c not in pp.columns and c != "USD"])
     f["cells"] = str(f["cells"])
     # process-wide and per-object state a backtest starts with: the Decimal context, and triggers already installed that are not this strategy's
-    import decimal
-    c = decimal.getcontext()
-    f["dctx"] = [c.prec, c.rounding, sorted(t.__name__ for t, on in c.traps.items() if on)]
+    # (the whole context — exponent range, capitals, clamp too — and whatever the Snapshot class itself holds: `proc_state`)
+    ps = proc_state(with_id=False)
+    f["dctx"] = ps["dctx"]
+    f["snapshot_class"] = ps["snapshot_class"]
     # every pandas object a market carries besides its data frame (Aave's risk-parameter table, …): part of the market object a backtest is handed
     f["mattrs"] = [[mi.name, k, frame_hash(v if hasattr(v, "columns") else v.to_frame())] for mi, m in strategy.broker.markets.items() for k, v in sorted(market_frames(m))]
     own = getattr(strategy, "_own_triggers", [])
@@ -536,6 +591,29 @@ def make_strategy_class():
                     self.assets[t].balance += Decimal(7)
                     self.broker.add_to_balance(t, Decimal(3))
                 self._try("pay", pay)
+            elif b == "proc_reader" and r in (1, 3):
+                # a strategy whose numbers depend on the process-wide decimal context it happens to run under (precision, rounding mode, traps,
+                # exponent range) and that looks at everything a snapshot lists: whatever an earlier backtest of this process left there shows up
+                def ctx_numbers():
+                    third = Decimal(1) / Decimal(3)
+                    out = [str(third), str((Decimal(2) / Decimal(3)).sqrt()), str(Decimal("2.5").quantize(Decimal(1))), str(Decimal("-0.125").quantize(Decimal("0.01"))),
+                           str(+Decimal("1.23456789012345678901234567890123456789012345"))]
+                    for what, f in (("div0", lambda: Decimal(1) / Decimal(0)), ("huge", lambda: Decimal(10) ** 999999 * Decimal(100)),
+                                    ("tiny", lambda: Decimal("1e-999999") / Decimal(10 ** 40)), ("nan", lambda: Decimal("NaN") < Decimal(1))):
+                        try:
+                            out.append(what + "=" + str(f()))
+                        except Exception as e:  # noqa: BLE001
+                            out.append(what + "!" + type(e).__name__)
+                    return out
+                self._try("ctx", ctx_numbers)
+                self.notes.append("snapshot-lists:" + ",".join(sorted(k.name for k in snapshot.market_status.data.keys())) + ":default:" +
+                                  str(getattr(snapshot.market_status.get_default_key(), "name", None)))
+                if self._has("uni_a"):
+                    self._try("buy-third", lambda: self._m("uni_a").buy(Decimal(1) / Decimal(3)))
+                elif self._has("gmx"):
+                    self._try("glp-third", lambda: self._m("gmx").buy_glp(self.tokens["usdc"], Decimal(100) / Decimal(3)))
+                elif self._has("squeeth"):
+                    self._try("sq-third", lambda: self._m("squeeth").buy_squeeth(eth_amount=Decimal(1) / Decimal(3)))
             elif b == "watcher" and r in ((min(3, len(self.prices) - 1),) if o2 < 60 else (3, 60)):
                 # records what it sees and trades by it: anything written by somebody else into prices / data / status shows up here
                 self.notes.append("price:" + ",".join(str(x) for x in snapshot.prices.values))
@@ -695,6 +773,8 @@ def worker(spec_path):
     from demeter import BacktestManager, BacktestConfig, Actuator
     Scripted = make_strategy_class()
     Scripted.__qualname__ = "Scripted"
+    proc0 = proc_state()            # the process state right after `import demeter`: what a backtest alone in a fresh process starts from
+    install_proc_log(spec["out"])
     config, data, tokens, pdf = build_world(spec)
     set_pristine(data, pdf)
     frames = data.data
@@ -728,7 +808,8 @@ def worker(spec_path):
     attached = [m.market_info.name for m in config.markets if m.broker is not None]
     with open(os.path.join(spec["out"], "_manager.json"), "w") as f:
         json.dump({"data_intact": before == after, "changed": sorted(k for k in before if before[k] != after[k]),
-                   "config_positions_after": leftover, "config_attached": attached, "raised": raised}, f)
+                   "config_positions_after": leftover, "config_attached": attached, "raised": raised,
+                   "pid": os.getpid(), "proc0": proc0, "proc_after": proc_state()}, f)
     if spec.get("direct"):
         for s in spec["strategies"]:
             config, data, tokens, pdf = build_world(spec)
@@ -817,6 +898,15 @@ def run_manager(spec, timeout=600):
                     res[sid] = None
         mp = os.path.join(d, "_manager.json")
         mgr = json.load(open(mp)) if os.path.exists(mp) else None
+        if mgr is not None:
+            # one log per process that executed backtests, lines in execution order: {pid: [{sid, before, after, failed?}, …]}
+            mgr["proc_log"] = {}
+            for fn in sorted(os.listdir(d)):
+                if fn.startswith("_proc_") and fn.endswith(".jsonl"):
+                    try:
+                        mgr["proc_log"][fn[6:-6]] = [json.loads(line) for line in open(os.path.join(d, fn)) if line.strip()]
+                    except ValueError:
+                        mgr["proc_log"][fn[6:-6]] = None
         return res, mgr, p.returncode, p.stderr.decode(errors="replace")[-1500:]
 
 
@@ -858,8 +948,8 @@ def solo_key(case, behaviour, arg):
 
 def run_solo(case, behaviour, arg):
     """the reference: the strategy alone, (a) through a manager with one strategy, (b) by a plain Actuator on fresh objects"""
-    res, _, _, err = run_manager(dict(conf_of(case), threads=1, direct=True, strategies=[{"sid": "solo", "behaviour": behaviour, "arg": arg}]))
-    return {"manager": res["solo"], "direct": res["solo_direct"], "post": res.get("solo__post"), "err": err}
+    res, mgr, _, err = run_manager(dict(conf_of(case), threads=1, direct=True, strategies=[{"sid": "solo", "behaviour": behaviour, "arg": arg}]))
+    return {"manager": res["solo"], "direct": res["solo_direct"], "post": res.get("solo__post"), "err": err, "mgr": mgr}
 
 
 def run_case(case):
@@ -903,6 +993,81 @@ def effect(case, behaviour, arg):
     return pos + [1 if b == "indicator" else 0, vals, user, fill, 1 if b == "mut_prices" else 0]
 
 
+def judge_process(ctx, case, path, mgr, ordered):
+    """the hypothesis `GIntact` of C19_manager_isolated, evaluated on the implementation's own observations: every backtest finds the
+    process-wide state (decimal context; class-level attributes of Snapshot: identity, keys, content) as a fresh process has it after
+    `import demeter`, and leaves it as it found it — in the caller's process and in every pool worker.  None of the generated strategies
+    writes that state, so whatever changes it is the code under test.  Returns (ok, observed assignment of tasks to workers or None,
+    per strategy: did its backtest leave the process changed, per strategy: did it find the process changed)."""
+    log, proc0 = mgr.get("proc_log") or {}, mgr.get("proc0") or {}
+    where = {}
+    for pid, recs in log.items():
+        for k, rec in enumerate(recs or []):
+            where[rec.get("sid")] = (pid, k, rec)
+
+    def parts(a, b):
+        return [k for k in ("dctx", "snapshot_class") if (a or {}).get(k) != (b or {}).get(k)]
+
+    def show(a, b, k):
+        x, y = json.dumps((a or {}).get(k)), json.dumps((b or {}).get(k))
+        return f"{k} {x[:160]} -> {y[:160]}"
+    ok, wrote, found_changed = True, [], []
+    beh = {x["sid"]: x["behaviour"] for x in ordered}
+    for s in ordered:
+        if s["sid"] not in where:
+            wrote.append(0)
+            found_changed.append(None)
+            continue
+        pid, k, rec = where[s["sid"]]
+        left = parts(rec["before"], rec.get("after"))
+        wrote.append(1 if left else 0)
+        found_changed.append(bool(parts(proc0, rec["before"])))
+        if left and ok:
+            ctx.violate(f"manager.{path}.process-state-left:{'+'.join(left)}",
+                        f"markets {'+'.join(case['markets'])}, threads={case['threads']}: the backtest of strategy '{s['behaviour']}' (none of the generated strategies "
+                        f"writes process-wide state) left the process it ran in changed — {'; '.join(show(rec['before'], rec.get('after'), c) for c in left)}; "
+                        f"backtests run later in that process: {[beh.get(r.get('sid')) for r in (log[pid] or [])[k + 1:]]}", case)
+            ok = False
+    for s, fc in zip(ordered, found_changed):
+        if fc and ok:
+            pid, k, rec = where[s["sid"]]
+            ctx.violate(f"manager.{path}.process-state-found:{'+'.join(parts(proc0, rec['before']))}",
+                        f"markets {'+'.join(case['markets'])}, threads={case['threads']}: strategy '{s['behaviour']}' started in a process whose state is not the one after "
+                        f"`import demeter` although no backtest before it left it changed — {'; '.join(show(proc0, rec['before'], c) for c in parts(proc0, rec['before']))}", case)
+            ok = False
+    if ok and parts(proc0, mgr.get("proc_after")):
+        ctx.violate(f"manager.{path}.process-state-left-in-caller:{'+'.join(parts(proc0, mgr.get('proc_after')))}",
+                    f"threads={case['threads']}: run() left the caller's process changed — "
+                    f"{'; '.join(show(proc0, mgr.get('proc_after'), c) for c in parts(proc0, mgr.get('proc_after')))}", case)
+        ok = False
+    # which process executed which task, in which order (the scheduling the model is parametrised by: observed, not assumed)
+    assign = None
+    if all(s["sid"] in where for s in ordered):
+        pids = []
+        for s in ordered:
+            if where[s["sid"]][0] not in pids:
+                pids.append(where[s["sid"]][0])
+        assign = [pids.index(where[s["sid"]][0]) for s in ordered]
+        in_order = all([where[s["sid"]][1] for s in ordered if where[s["sid"]][0] == p] == sorted(where[s["sid"]][1] for s in ordered if where[s["sid"]][0] == p)
+                       for p in pids)
+        in_caller = [p == str(mgr.get("pid")) for p in pids]
+        inproc = path in ("sequential", "solo")
+        if inproc and in_caller != [True]:
+            ctx.disagree(f"in-process path (threads={case['threads']}, {len(ordered)} strategies): backtests were executed by processes {pids}, the caller is {mgr.get('pid')}", case)
+        elif not inproc and any(in_caller):
+            ctx.disagree(f"pooled path (threads={case['threads']}): a backtest was executed by the caller's own process {mgr.get('pid')}", case)
+        if not inproc:
+            ctx.case(f"workers:{path}:t{case['threads']}:n{len(ordered)}:used{len(pids)}:maxload{max(assign.count(i) for i in range(len(pids)))}")
+            if len(pids) > case["threads"]:
+                ctx.disagree(f"pooled path: {len(pids)} worker processes executed tasks, threads={case['threads']}", case)
+        if not in_order:
+            ctx.count("worker_ran_tasks_out_of_submission_order")
+            assign = None
+    else:
+        ctx.count("backtests_without_process_log", len([s for s in ordered if s["sid"] not in where]))
+    return ok, assign, wrote, found_changed
+
+
 def judge_case(ctx, case, outcome, solo_cache, model_reqs):
     strategies = strategies_of(case)
     ordered = [strategies[i] for i in case["order"]]
@@ -922,6 +1087,10 @@ def judge_case(ctx, case, outcome, solo_cache, model_reqs):
         ctx.violate(f"manager.{path}.config-modified", f"the configured market objects were used by a backtest: positions {mgr['config_positions_after']}, "
                     f"attached to a broker {mgr['config_attached']}", case)
         ok = False
+    assign, wrote, found_changed = None, [0] * len(ordered), [None] * len(ordered)
+    if rc == 0 and mgr is not None:
+        pok, assign, wrote, found_changed = judge_process(ctx, case, path, mgr, ordered)
+        ok = ok and pok
     for s in strategies:
         solo = solo_cache[solo_key(case, s["behaviour"], s["arg"])]
         if s["behaviour"] == "raiser":
@@ -965,11 +1134,19 @@ def judge_case(ctx, case, outcome, solo_cache, model_reqs):
             f = r["found"]
             p = (f["pos"] + [0])[:2]
             found.append([p[0] > 0, p[1] > 0, bool(f["link"]), f["cols"] > 0, f["vals"] > 0, f["cells"], f["prices"] > 0])
-        observed = {"results": [r is not None for r in found], "found": found, "reraised": bool(mgr.get("raised"))}
-        model_reqs.append(({"fn": "manager", "threads": case["threads"], "attach": "current", "cow": COW, "windows": bool(case.get("windows")),
-                            "priceDec": case["price_kind"] == "decimal", "linked": "squeeth" in case["markets"],
-                            "effects": [effect(case, s["behaviour"], s["arg"]) for s in ordered],
-                            "fails": [s["behaviour"] == "raiser" for s in ordered]}, observed, case))
+        observed = {"results": [r is not None for r in found], "found": found, "reraised": bool(mgr.get("raised")),
+                    "foundG": [None if r is None else fc for r, fc in zip(found, found_changed)]}
+        req = {"fn": "manager", "threads": case["threads"], "attach": "current", "cow": COW, "windows": bool(case.get("windows")),
+               "priceDec": case["price_kind"] == "decimal", "linked": "squeeth" in case["markets"],
+               "effects": [effect(case, s["behaviour"], s["arg"]) for s in ordered],
+               "fails": [s["behaviour"] == "raiser" for s in ordered],
+               # process-wide state (`managerRunG`): which backtests were measured to leave their process changed (none, unless the code
+               # under test does), and the assignment of tasks to worker processes as observed (pid per backtest), not an assumed one
+               "gwrites": wrote}
+        if assign is not None and path != "sequential":
+            req["assign"] = assign
+            ctx.count("observed_assignments")
+        model_reqs.append((req, observed, case))
 
 
 def judge_solo(ctx, key, solo):
@@ -985,6 +1162,9 @@ def judge_solo(ctx, key, solo):
     elif d is not None:
         ctx.violate("manager.solo-differs-from-actuator",
                     f"markets {'+'.join(conf['markets'])}: strategy '{behaviour}' run alone by BacktestManager differs from the same backtest run by a plain Actuator — {d}", case)
+    if solo.get("mgr"):
+        pok = judge_process(ctx, case, "solo", solo["mgr"], [{"sid": "solo", "behaviour": behaviour, "arg": arg}])[0]
+        d = d if pok else (d or "process state")
     ctx.case(f"solo:{'+'.join(conf['markets'])}:{conf['price_kind']}:{behaviour}:{'ok' if d is None else 'bad'}", case)
 
 
@@ -1189,6 +1369,13 @@ def run(ctx):
                 continue
             predicted = [None if r is None else [int(r[0]) > 0, int(r[1]) > 0, bool(r[2]), int(r[3]) > 0, int(r[4]) > 0, str(Fraction(r[5])), int(r[6]) > 0]
                          for r in a["found"]]
+            pred_g = [None if g is None else int(g) > 0 for g in a.get("foundG", [])]
+            if "assign" in req or req["threads"] == 1 or len(req["effects"]) == 1:
+                ctx.count("model_process_state_predictions", len(pred_g))
+                if pred_g != observed["foundG"] and None not in [o for o, r in zip(observed["foundG"], observed["results"]) if r]:
+                    ctx.disagree(f"manager model (process state threaded per process, observed assignment {req.get('assign', 'in-process')}, backtests measured to "
+                                 f"leave their process changed: {req['gwrites']}) predicts [finds the process state changed] = {pred_g}, the implementation's "
+                                 f"backtests: {observed['foundG']} (threads {req['threads']})", case)
             if predicted != observed["found"]:
                 ctx.disagree(f"manager model predicts that the strategies find [positions on market 1, on market 2, market references intact, columns added, values overwritten, depth taken, prices overwritten] = {predicted}, "
                              f"the implementation's strategies found {observed['found']} (threads {req['threads']})", case)
